@@ -299,7 +299,9 @@ def iter_heavy():
 HEAVY = {
     "C01": lambda: [(disp_heavy("block", 1), ["C01_Fold", "C01_ExactlyOnce", "C01_Threaded", "C02_ReduceOrder"], ["C01_FinalAfterStop"]),
                     (disp_heavy("block", 2), ["C01_Fold", "C01_ExactlyOnce", "C01_Threaded", "C02_ReduceOrder"], [])],
-    "C02": lambda: [(disp_heavy(p, 1), ["C02_Order", "C02_ReduceOrder"], []) for p in ("block", "oldest", "latest")],
+    "C02": lambda: [(disp_heavy("block", 1), ["C02_Order", "C02_ReduceOrder"], []),
+                    (burst_heavy("oldest", 2), ["C02_Order", "C02_ReduceOrder"], []),
+                    (burst_heavy("latest", 2), ["C02_Order", "C02_ReduceOrder"], [])],
     "C03": lambda: [(subs_heavy(), ["C03_OnlyDispatch", "C03_EveryDispatch", "C03_StateAndOrder", "C03_Stream", "C09_Notified"], [])],
     "C04": lambda: [(stop_heavy(p), ["C04_Barrier", "C04_ErrNeverReduced", "C10_Flush"], ["C04_Final"]) for p in ("block", "latest")],
     "C05": lambda: [(burst_heavy("block", c), ["C05_Bound", "C05_NoLoss", "C01_ExactlyOnce"], []) for c in (1, 2, 3)],
